@@ -388,6 +388,10 @@ func (conn *Conn) read(ctx *Context, async bool) {
 					return
 				}
 			} else if u.Stream == openStream {
+				// This is the open acknowledgement: advance the stream phase here,
+				// in the reader, before signalling, so that every later response
+				// on this sequence number is delivered as a stream message.
+				u.Stream = streaming
 				call.done()
 			}
 			conn.bufferPool.PutBuffer(ctx.buffer)
